@@ -1,13 +1,539 @@
 /-
-  C15 — option orders (placeholder while the harness is brought up; real theorems follow).
+  C15 — option orders fill best-first at displayed sizes; cash, fee, position exact; fills shrink the
+  visible book until refresh; equity; no short sale.
+
+  Model: Demeter/Deribit.lean (the repaired code: /repo commits 763165f 4fb272a 1e18c04 53b904d a92046a).
+  `∀ cx` theorems hold for every Decimal rounding and every float semantics; theorems about sums and
+  cash are stated for `DCtx.exact` (Decimal arithmetic exact, book floats read as reals).
 -/
-import Demeter.Deribit
-import Proofs.Lemmas.Exact
+import Proofs.Lemmas.Deribit
+import Mathlib.Tactic.FieldSimp
 namespace Demeter
 open Demeter.Deribit
 
-theorem C15_closed_market_rejects_buy (cx : DCtx) (c : TokenCfg) (s : DState) (r : Req) (h : s.flagOpen = false) :
-    buy cx c s r = (.error (.demeter "market-closed"), s) := by
-  unfold buy; simp [h]
+/-- the levels a market order can take from, in book order -/
+def Deribit.nonEmpty (ls : List Level) : List Level := ls.filter (fun l => l.size ≠ 0)
+
+/-- all sizes of a side are non-negative -/
+def Deribit.SizesNonneg (ls : List Level) : Prop := ∀ l ∈ ls, 0 ≤ l.size
+
+/-- the constants the property names, as extracted from the source -/
+theorem C15_constants :
+    ethCfg.tradeFee = 3 / 10000 ∧ btcCfg.tradeFee = 3 / 10000 ∧ maxFeeRate = 125 / 1000 ∧
+    ethCfg.tradeExp = 0 ∧ ethCfg.feeExp = -6 ∧ btcCfg.tradeExp = -1 ∧ btcCfg.feeExp = -8 ∧ matchErr = 1 / 1000 := by
+  refine ⟨?_, ?_, ?_, rfl, rfl, rfl, rfl, ?_⟩ <;>
+    simp only [ethCfg, btcCfg, maxFeeRate, matchErr, Gen.deribitEthTradeFeeRate, Gen.deribitBtcTradeFeeRate,
+      Gen.deribitMaxFeeRate, Gen.deribitPriceMatchError] <;> norm_num
+/-- **best-first at displayed sizes** (every arithmetic context): the fills of a market order sit, in
+    order, on an initial segment of the non-empty levels in book order; each fill carries its level's
+    printed price and takes no more than the level's printed size. -/
+theorem C15_market_fills_prefix (cx : DCtx) (rem : Rat) (ls : List Level) :
+    List.Forall₂ (fun (f : Fill) (l : Level) => f.price = cx.reprD l.price ∧ f.amount ≤ cx.reprD l.size)
+      (deductMarket cx rem ls) ((Deribit.nonEmpty ls).take (deductMarket cx rem ls).length) := by
+  induction ls generalizing rem with
+  | nil => simp [deductMarket, Deribit.nonEmpty]
+  | cons l ls ih =>
+    unfold deductMarket
+    by_cases h0 : l.size = 0
+    · simp only [h0, if_true]
+      have : Deribit.nonEmpty (l :: ls) = Deribit.nonEmpty ls := by simp [Deribit.nonEmpty, h0]
+      rw [this]; exact ih rem
+    · simp only [h0, if_false]
+      have hne : Deribit.nonEmpty (l :: ls) = l :: Deribit.nonEmpty ls := by simp [Deribit.nonEmpty, h0]
+      rw [hne]
+      split
+      · simp
+      · simp only [List.length_cons, List.take_succ_cons]
+        exact List.Forall₂.cons ⟨rfl, min_le_left _ _⟩ (ih _)
+
+/-- a level is left before it is exhausted only by the last fill: every fill but the last takes the
+    whole printed size of its level (contexts whose rounding maps 0 to 0). -/
+theorem C15_market_consumes_level_before_next (cx : DCtx) (h0 : cx.num.rnd 0 = 0) (rem : Rat) (ls : List Level) :
+    ∀ i, i + 1 < (deductMarket cx rem ls).length →
+      ((deductMarket cx rem ls)[i]?).map (·.amount) = ((Deribit.nonEmpty ls)[i]?).map (fun l => cx.reprD l.size) := by
+  induction ls generalizing rem with
+  | nil => intro i hi; simp [deductMarket] at hi
+  | cons l ls ih =>
+    intro i hi
+    unfold deductMarket at hi ⊢
+    by_cases hz : l.size = 0
+    · simp only [hz, if_true] at hi ⊢
+      have : Deribit.nonEmpty (l :: ls) = Deribit.nonEmpty ls := by simp [Deribit.nonEmpty, hz]
+      rw [this]; exact ih rem i hi
+    · simp only [hz, if_false] at hi ⊢
+      have hne : Deribit.nonEmpty (l :: ls) = l :: Deribit.nonEmpty ls := by simp [Deribit.nonEmpty, hz]
+      rw [hne]
+      split at hi
+      · simp at hi
+      · rename_i hc
+        split
+        · rename_i hc'; exact absurd hc' hc
+        · cases i with
+          | zero =>
+            simp only [List.getElem?_cons_zero, Option.map_some, Option.some.injEq]
+            have hr : cx.num.sub rem (min (cx.reprD l.size) rem) ≠ 0 := fun h => hc (Or.inr h)
+            rcases min_choice (cx.reprD l.size) rem with h | h
+            · exact h
+            · exfalso; apply hr; rw [h]; simp [NumCtx.sub, h0]
+          | succ j =>
+            simp only [List.length_cons, Nat.add_lt_add_iff_right] at hi
+            simpa using ih _ j hi
+
+/-- **fills exactly the requested amount** (exact arithmetic): with non-negative displayed sizes and
+    `0 ≤ amount ≤ Σ sizes` (what `check_transaction` guarantees) the fills add up to the amount. -/
+theorem C15_market_fill_total (ls : List Level) (amount : Rat) (hs : Deribit.SizesNonneg ls)
+    (h0 : 0 ≤ amount) (hle : amount ≤ sizeSum ls) :
+    fillSum (deductMarket DCtx.exact amount ls) = amount := by
+  induction ls generalizing amount with
+  | nil =>
+    simp [sizeSum] at hle
+    simp [deductMarket, fillSum]; linarith
+  | cons l ls ih =>
+    have hl : 0 ≤ l.size := hs l List.mem_cons_self
+    have hs' : Deribit.SizesNonneg ls := fun x hx => hs x (List.mem_cons_of_mem _ hx)
+    have hsum : sizeSum (l :: ls) = l.size + sizeSum ls := by simp [sizeSum]
+    unfold deductMarket
+    by_cases hz : l.size = 0
+    · simp only [hz, if_true]
+      apply ih _ hs' h0; rw [hsum, hz] at hle; linarith
+    · simp only [hz, if_false]
+      split
+      · rename_i hc
+        simp only [exact_reprD, exact_num, NumCtx.exact_sub, exact_fsub, exact_toF] at hc ⊢
+        simp only [fillSum, List.map_cons, List.map_nil, List.sum_cons, List.sum_nil, add_zero]
+        rcases hc with hc | hc
+        · rcases min_choice l.size amount with h | h
+          · rw [h] at hc; linarith
+          · exact h
+        · linarith
+      · rename_i hc
+        simp only [exact_reprD, exact_num, NumCtx.exact_sub, exact_fsub, exact_toF] at hc ⊢
+        have hc1 : ¬ (0 < l.size - min l.size amount) := fun h => hc (Or.inl h)
+        have hmin : min l.size amount = l.size := by
+          have := min_le_left l.size amount
+          linarith [not_lt.mp hc1]
+        simp only [fillSum, List.map_cons, List.sum_cons]
+        have := ih (amount - min l.size amount) hs' (by linarith [min_le_right l.size amount]) (by rw [hmin]; rw [hsum] at hle; linarith)
+        unfold fillSum at this
+        rw [this]; ring
+
+/-- **limit order**: fills only at levels whose printed price is the matched price, each for the whole amount -/
+theorem C15_limit_fills_only_at_level (cx : DCtx) (p a : Rat) (ls : List Level) :
+    deductLimit cx p a ls = (ls.filter (fun l => p = cx.reprD l.price)).map (fun _ => ⟨p, a⟩) := by
+  induction ls with
+  | nil => simp [deductLimit]
+  | cons l ls ih =>
+    unfold deductLimit
+    by_cases h : p = cx.reprD l.price
+    · simp only [h, if_true] at ih ⊢; simp [ih]
+    · simp only [h, if_false]; rw [ih]; simp [h]
+
+/-- with distinct printed prices a limit order is one fill of the whole amount at the matched level -/
+theorem C15_limit_single_fill (cx : DCtx) (a : Rat) (ls : List Level) (l : Level) (hl : l ∈ ls)
+    (hd : (ls.map (fun l => cx.reprD l.price)).Nodup) :
+    deductLimit cx (cx.reprD l.price) a ls = [⟨cx.reprD l.price, a⟩] := by
+  rw [C15_limit_fills_only_at_level]
+  induction ls with
+  | nil => simp at hl
+  | cons x xs ih =>
+    simp only [List.map_cons, List.nodup_cons] at hd
+    rcases List.mem_cons.mp hl with rfl | hmem
+    · have : xs.filter (fun y => decide (cx.reprD l.price = cx.reprD y.price)) = [] := by
+        apply List.filter_eq_nil_iff.mpr
+        intro y hy hyp
+        simp only [decide_eq_true_eq] at hyp
+        exact hd.1 (hyp ▸ List.mem_map_of_mem (f := fun l => cx.reprD l.price) hy)
+      simp [this]
+    · have hne : ¬ (cx.reprD l.price = cx.reprD x.price) := fun h =>
+        hd.1 (h ▸ List.mem_map_of_mem (f := fun l => cx.reprD l.price) hmem)
+      simp only [List.filter_cons, hne, decide_false]
+      exact ih hmem hd.2
+
+/-- **price cap relative to mark (buy)**: with `max_mark_price_multiple = m` every fill comes from an ask
+    strictly below `m × mark` -/
+theorem C15_buy_cap_excludes_worse (cx : DCtx) (c : TokenCfg) (s s' : DState) (r : Req) (m : Rat)
+    (fills : List Fill) (fee : Rat) (hm : r.mult = some m)
+    (h : buy cx c s r = (.ok (.trade fills fee), s')) :
+    ∃ ins, findInstr s.book r.name = some ins ∧
+      ∀ f ∈ fills, ∃ l ∈ ins.asks, l.price < cx.num.mul m ins.mark ∧ f.price = cx.reprD l.price := by
+  obtain ⟨_, ck, hck, fills', _, _, hfills, _, _, hres, _⟩ := buy_ok h
+  simp only [Res.trade.injEq] at hres
+  obtain ⟨rfl, _⟩ := hres
+  refine ⟨ck.ins, (checkTx_ok hck).1, ?_⟩
+  intro f hf
+  rw [hfills] at hf
+  have ha : availSide cx ck.ins r.mult true = .ok (availAsks cx ck.ins r.mult) := by simp [availSide]
+  obtain ⟨l, hl, hp⟩ := fills_from_avail hck ha hf
+  simp only [availAsks, hm] at hl
+  obtain ⟨hl1, hl2⟩ := List.mem_filter.mp hl
+  exact ⟨l, hl1, by simpa using hl2, hp⟩
+
+/-- **price floor relative to mark (sell)**: every fill comes from a bid strictly above `mark / m` -/
+theorem C15_sell_cap_excludes_worse (cx : DCtx) (c : TokenCfg) (s s' : DState) (r : Req) (m : Rat)
+    (fills : List Fill) (fee : Rat) (hm : r.mult = some m)
+    (h : sell cx c s r = (.ok (.trade fills fee), s')) :
+    ∃ ins, findInstr s.book r.name = some ins ∧ m ≠ 0 ∧
+      ∀ f ∈ fills, ∃ l ∈ ins.bids, cx.num.div ins.mark m < l.price ∧ f.price = cx.reprD l.price := by
+  obtain ⟨_, ck, p, bids, hck, _, _, hb, fills', _, _, hfills, _, _, hres, _⟩ := sell_ok h
+  simp only [Res.trade.injEq] at hres
+  obtain ⟨rfl, _⟩ := hres
+  have ha : availSide cx ck.ins r.mult false = .ok bids := by simp [availSide, hb]
+  simp only [availBids, hm, decDiv] at hb
+  by_cases hm0 : m = 0
+  · simp only [hm0, if_true] at hb
+    split at hb
+    · simp at hb
+    · rename_i heq; split at heq <;> simp at heq
+  · simp only [hm0, if_false, Except.ok.injEq] at hb
+    refine ⟨ck.ins, (checkTx_ok hck).1, hm0, ?_⟩
+    intro f hf
+    rw [hfills] at hf
+    obtain ⟨l, hl, hp⟩ := fills_from_avail hck ha hf
+    rw [← hb] at hl
+    obtain ⟨hl1, hl2⟩ := List.mem_filter.mp hl
+    exact ⟨l, hl1, by simpa using hl2, hp⟩
+
+/-- level count and prices of a side never change when fills are written back (every context) -/
+theorem C15_book_prices_kept (cx : DCtx) (old : List Level) (fs : List Fill) :
+    (newOrderList cx old fs).map (·.price) = old.map (·.price) := by
+  unfold newOrderList
+  induction fs generalizing old with
+  | nil => rfl
+  | cons f fs ih => simp only [List.foldl_cons]; rw [ih, applyFill_prices]
+
+/-- **the visible book after a fill is the old book minus the fills** (exact arithmetic): at every
+    price the displayed size drops by exactly what the fills took there. -/
+theorem C15_book_after_fill (old : List Level) (fs : List Fill) (p : Rat) :
+    sizeAt (newOrderList DCtx.exact old fs) p = (sizeAt old p).map (fun s => s - taken fs p) := by
+  unfold newOrderList
+  induction fs generalizing old with
+  | nil => simp [taken]
+  | cons f fs ih =>
+    simp only [List.foldl_cons]
+    rw [ih, sizeAt_applyFill]
+    by_cases hp : p = f.price
+    · have hp' : f.price = p := hp.symm
+      simp only [hp, if_true, taken, List.filter_cons, decide_true, List.map_cons, List.sum_cons]
+      cases sizeAt old f.price <;> simp; ring
+    · have hp' : ¬ f.price = p := fun h => hp h.symm
+      simp [hp, taken, hp']
+
+/-- the value of the portfolio at mark: Σ amount × round(mark) over the positions whose instrument is in the book -/
+def Deribit.markValue (c : TokenCfg) (book : List Instr) (ps : List (String × Position)) : Rat :=
+  (ps.map (fun kp => match findInstr book kp.2.name with
+    | some ins => kp.2.amount * roundDec c.feeExp ins.mark
+    | none => 0)).sum
+
+theorem Deribit.valueLoop_fst (c : TokenCfg) (book : List Instr) (ps : List (String × Position)) (a b d : Rat) :
+    (valueLoop DCtx.exact c book ps (a, b, d)).1 = a + Deribit.markValue c book ps := by
+  induction ps generalizing a b d with
+  | nil => simp [valueLoop, Deribit.markValue]
+  | cons kp ps ih =>
+    obtain ⟨k, p⟩ := kp
+    unfold valueLoop
+    split
+    · rename_i hnone
+      rw [ih]; simp [Deribit.markValue, hnone]
+    · rename_i ins hsome
+      simp only [exact_num, NumCtx.exact_add, NumCtx.exact_mul]
+      rw [ih]; simp [Deribit.markValue, hsome]; ring
+
+/-- **equity = cash + positions at mark** on an open bar (exact arithmetic) -/
+theorem C15_equity (c : TokenCfg) (s : DState) (hg : s.onGrid = true) :
+    ∃ b, (getMarketBalance DCtx.exact c s).1 = .ok (.balance (some b)) ∧
+      b.netValue = s.cash + Deribit.markValue c s.book s.positions ∧ b.cash = s.cash ∧
+      b.premium = Deribit.markValue c s.book s.positions := by
+  unfold getMarketBalance
+  simp only [hg, if_true]
+  refine ⟨_, rfl, ?_, ?_, ?_⟩
+  · simp only [freshBalance]
+    have := Deribit.valueLoop_fst c s.book s.positions 0 0 0
+    rcases hv : valueLoop DCtx.exact c s.book s.positions (0, 0, 0) with ⟨tp, dl, gm⟩
+    rw [hv] at this
+    simp only [exact_num, NumCtx.exact_add]
+    simp only [] at this
+    rw [this]; ring
+  · simp only [freshBalance]
+  · simp only [freshBalance]
+    have := Deribit.valueLoop_fst c s.book s.positions 0 0 0
+    rcases hv : valueLoop DCtx.exact c s.book s.positions (0, 0, 0) with ⟨tp, dl, gm⟩
+    rw [hv] at this
+    simp only [] at this
+    rw [this]; ring
+
+/-- **cost of a buy** (exact arithmetic): cash drops by Σ price × size plus the fee, the fee is
+    `round(min(trade_fee_rate × contracts, 12.5 % × premium))`, cash stays non-negative, and the filled
+    amount is the request rounded to the contract step. -/
+theorem C15_buy_cost (c : TokenCfg) (s s' : DState) (r : Req) (fills : List Fill) (fee : Rat)
+    (h : buy DCtx.exact c s r = (.ok (.trade fills fee), s')) :
+    s'.cash = s.cash - (fillCost fills + fee) ∧ 0 ≤ s'.cash ∧
+    fee = roundDec c.feeExp (min (c.tradeFee * roundDec c.tradeExp r.amount) (maxFeeRate * fillCost fills)) ∧
+    s'.wallet = s.wallet := by
+  obtain ⟨_, ck, hck, fills', prem, fee', hfills, hprem, hfee, hres, hcash, hnn, hs'⟩ := buy_ok h
+  simp only [Res.trade.injEq] at hres
+  obtain ⟨rfl, rfl⟩ := hres
+  have hamt := (checkTx_ok hck).2.2.2.1
+  rw [premiumOf_exact] at hprem
+  refine ⟨?_, hnn, ?_, ?_⟩
+  · rw [hcash, hprem]; simp
+  · rw [hfee, hprem, hamt]; simp [tradeFee]
+  · rw [hs']
+
+/-- **proceeds of a sell** (exact arithmetic) -/
+theorem C15_sell_proceeds (c : TokenCfg) (s s' : DState) (r : Req) (fills : List Fill) (fee : Rat)
+    (h : sell DCtx.exact c s r = (.ok (.trade fills fee), s')) :
+    s'.cash = s.cash + (fillCost fills - fee) ∧
+    fee = roundDec c.feeExp (min (c.tradeFee * roundDec c.tradeExp r.amount) (maxFeeRate * fillCost fills)) ∧
+    s'.wallet = s.wallet := by
+  obtain ⟨_, ck, p, bids, hck, _, _, _, fills', prem, fee', hfills, hprem, hfee, hres, hs'⟩ := sell_ok h
+  simp only [Res.trade.injEq] at hres
+  obtain ⟨rfl, rfl⟩ := hres
+  have hamt := (checkTx_ok hck).2.2.2.1
+  rw [premiumOf_exact] at hprem
+  refine ⟨?_, ?_, ?_⟩
+  · rw [hs', hprem]; simp
+  · rw [hfee, hprem, hamt]; simp [tradeFee]
+  · rw [hs']
+
+/-- **a market buy fills exactly the requested amount rounded to the contract step** (exact arithmetic,
+    non-negative displayed sizes) -/
+theorem C15_buy_market_fills_rounded_amount (c : TokenCfg) (s s' : DState) (r : Req) (fills : List Fill) (fee : Rat)
+    (hb : BookNonneg s.book) (hp : r.priceTok = none ∧ r.priceUsd = none)
+    (h : buy DCtx.exact c s r = (.ok (.trade fills fee), s')) :
+    fillSum fills = roundDec c.tradeExp r.amount := by
+  obtain ⟨_, ck, hck, fills', prem, fee', hfills, _, _, hres, _⟩ := buy_ok h
+  simp only [Res.trade.injEq] at hres
+  obtain ⟨rfl, rfl⟩ := hres
+  obtain ⟨hfind, _, hmin, hamt, avail, ha, hcase⟩ := checkTx_ok hck
+  have hav : avail = availAsks DCtx.exact ck.ins r.mult := by simpa [availSide] using ha.symm
+  have hnn : 0 ≤ ck.amount := by
+    rw [hamt]; exact roundDec_nonneg _ (le_trans (minAmount_pos c).le hmin)
+  have hsz : ∀ l ∈ avail, 0 ≤ l.size := by
+    intro l hl
+    have hins := (hb ck.ins (findInstr_mem hfind)).1
+    rw [hav] at hl
+    unfold availAsks at hl
+    split at hl
+    · exact hins l hl
+    · exact hins l (List.mem_filter.mp hl).1
+  rcases hcase with ⟨_, hpn, hle⟩ | ⟨p, l, rest, hrp, _⟩
+  · rw [hfills, hpn, ← hav, ← hamt]
+    rw [sumSizes_exact] at hle
+    exact C15_market_fill_total avail ck.amount hsz hnn hle
+  · simp [reqPrice, hp.1, hp.2] at hrp
+
+
+/-- **a market sell fills exactly the requested amount rounded to the contract step** -/
+theorem C15_sell_market_fills_rounded_amount (c : TokenCfg) (s s' : DState) (r : Req) (fills : List Fill) (fee : Rat)
+    (hb : BookNonneg s.book) (hp : r.priceTok = none ∧ r.priceUsd = none)
+    (h : sell DCtx.exact c s r = (.ok (.trade fills fee), s')) :
+    fillSum fills = roundDec c.tradeExp r.amount := by
+  obtain ⟨_, ck, p, bids, hck, _, _, hbids, fills', prem, fee', hfills, _, _, hres, _⟩ := sell_ok h
+  simp only [Res.trade.injEq] at hres
+  obtain ⟨rfl, rfl⟩ := hres
+  obtain ⟨hfind, _, hmin, hamt, avail, ha, hcase⟩ := checkTx_ok hck
+  have hav : avail = bids := by
+    simp only [availSide, Bool.false_eq_true, if_false, hbids, Except.ok.injEq] at ha; exact ha.symm
+  have hnn : 0 ≤ ck.amount := by
+    rw [hamt]; exact roundDec_nonneg _ (le_trans (minAmount_pos c).le hmin)
+  have hsz : ∀ l ∈ bids, 0 ≤ l.size := by
+    intro l hl
+    have hins := (hb ck.ins (findInstr_mem hfind)).2
+    unfold availBids at hbids
+    split at hbids
+    · simp only [Except.ok.injEq] at hbids; exact hins l (hbids ▸ hl)
+    · split at hbids
+      · simp at hbids
+      · simp only [Except.ok.injEq] at hbids
+        rw [← hbids] at hl
+        exact hins l (List.mem_filter.mp hl).1
+  rcases hcase with ⟨_, hpn, hle⟩ | ⟨p, l, rest, hrp, _⟩
+  · rw [hfills, hpn, ← hamt]
+    rw [sumSizes_exact, hav] at hle
+    exact C15_market_fill_total bids ck.amount hsz hnn hle
+  · simp [reqPrice, hp.1, hp.2] at hrp
+
+/-- **a limit-priced order fills only at a level within ±0.1 % of the requested price** and only if that
+    level shows at least the (rounded) amount -/
+theorem C15_limit_price_within_tolerance (c : TokenCfg) (s s' : DState) (r : Req) (p : Rat) (fills : List Fill) (fee : Rat)
+    (hp : r.priceTok = some p) (h : buy DCtx.exact c s r = (.ok (.trade fills fee), s')) :
+    ∃ ins l, findInstr s.book r.name = some ins ∧ l ∈ ins.asks ∧
+      (1 - 1 / 1000) * p < l.price ∧ l.price < (1 + 1 / 1000) * p ∧ roundDec c.tradeExp r.amount ≤ l.size ∧
+      ∀ f ∈ fills, f = ⟨l.price, roundDec c.tradeExp r.amount⟩ := by
+  obtain ⟨_, ck, hck, fills', prem, fee', hfills, _, _, hres, _⟩ := buy_ok h
+  simp only [Res.trade.injEq] at hres
+  obtain ⟨rfl, rfl⟩ := hres
+  obtain ⟨hfind, _, _, hamt, avail, ha, hcase⟩ := checkTx_ok hck
+  have hav : avail = availAsks DCtx.exact ck.ins r.mult := by simpa [availSide] using ha.symm
+  rcases hcase with ⟨hrp, _, _⟩ | ⟨q, l, rest, hrp, hfa, hpr, hle⟩
+  · simp [reqPrice, hp] at hrp
+  · have hq : q = p := by simp [reqPrice, hp] at hrp; exact hrp.symm
+    subst hq
+    have hl : l ∈ findAvailable DCtx.exact q avail := by rw [hfa]; exact List.mem_cons_self
+    unfold findAvailable at hl
+    obtain ⟨hl1, hl2⟩ := List.mem_filter.mp hl
+    replace hl2 := of_decide_eq_true hl2
+    simp only [exact_num, NumCtx.exact_mul, NumCtx.exact_sub, NumCtx.exact_add] at hl2
+    have hme : matchErr = 1 / 1000 := C15_constants.2.2.2.2.2.2.2
+    rw [hme] at hl2
+    have hlasks : l ∈ ck.ins.asks := by
+      rw [hav] at hl1
+      unfold availAsks at hl1
+      split at hl1
+      · exact hl1
+      · exact (List.mem_filter.mp hl1).1
+    refine ⟨ck.ins, l, hfind, hlasks, hl2.1, hl2.2, hamt ▸ hle, ?_⟩
+    intro f hf
+    rw [hfills, hpr] at hf
+    have := deductLimit_mem hf
+    rw [this, hamt]; rfl
+
+/-- **contracts that are not held cannot be sold**: a sell without a position, or for more than the
+    holding, is rejected and nothing changes; an accepted sell leaves `held − sold ≥ 0`. -/
+theorem C15_no_short_sale (cx : DCtx) (c : TokenCfg) (s : DState) (r : Req) :
+    (AList.get? s.positions r.name = none → ∃ e, sell cx c s r = (.error e, s)) ∧
+    (∀ p ck, AList.get? s.positions r.name = some p → checkTx cx c s.book r false = .ok ck → p.amount < ck.amount →
+        ∃ e, sell cx c s r = (.error e, s)) ∧
+    (∀ res s', sell cx c s r = (.ok res, s') → ∃ p, AList.get? s.positions r.name = some p ∧
+        ∃ ck, checkTx cx c s.book r false = .ok ck ∧ ck.amount ≤ p.amount) := by
+  refine ⟨?_, ?_, ?_⟩
+  · intro hnone
+    unfold sell
+    split
+    · exact ⟨_, rfl⟩
+    · split
+      · exact ⟨_, rfl⟩
+      · simp only [hnone]; exact ⟨_, rfl⟩
+  · intro p ck hp hck hlt
+    unfold sell
+    split
+    · exact ⟨_, rfl⟩
+    · simp only [hck, hp, gt_iff_lt, hlt, if_true]; exact ⟨_, rfl⟩
+  · intro res s' h
+    obtain ⟨_, ck, p, _, hck, hp, hle, _⟩ := sell_ok h
+    exact ⟨p, hp, ck, hck, hle⟩
+
+/-- after an accepted sell (exact arithmetic) the holding is `held − sold`; the position disappears exactly
+    when nothing is left -/
+theorem C15_sell_position (c : TokenCfg) (s s' : DState) (r : Req) (res : Res)
+    (h : sell DCtx.exact c s r = (.ok res, s')) :
+    ∃ p, AList.get? s.positions r.name = some p ∧ 0 ≤ p.amount - roundDec c.tradeExp r.amount ∧
+      (p.amount - roundDec c.tradeExp r.amount = 0 → s'.positions = AList.erase s.positions r.name) ∧
+      (p.amount - roundDec c.tradeExp r.amount ≠ 0 → ∃ p', s'.positions = AList.set s.positions r.name p' ∧
+          p'.amount = p.amount - roundDec c.tradeExp r.amount ∧ p'.sellAmt = p.sellAmt + roundDec c.tradeExp r.amount) := by
+  obtain ⟨_, ck, p, _, hck, hp, hle, _, fills, prem, fee, _, _, _, _, hs'⟩ := sell_ok h
+  have hamt := (checkTx_ok hck).2.2.2.1
+  rw [hamt] at hle
+  refine ⟨p, hp, by linarith, ?_, ?_⟩
+  · intro h0
+    rw [hs']
+    simp only [soldPosition, exact_num, NumCtx.exact_sub, hamt, h0, le_refl, if_true]
+  · intro hne
+    have hpos : ¬ (p.amount - roundDec c.tradeExp r.amount ≤ 0) := by
+      intro hle0; exact hne (le_antisymm hle0 (by linarith))
+    rw [hs']
+    simp only [soldPosition, exact_num, NumCtx.exact_sub, NumCtx.exact_add, hamt, hpos, if_false]
+    exact ⟨_, rfl, rfl, rfl⟩
+
+theorem Deribit.avgPrice_two (avg a pa pb : Rat) (h : a + pb ≠ 0) :
+    avgPrice DCtx.exact [⟨avg, a⟩, ⟨pa, pb⟩] = (a * avg + pb * pa) / (a + pb) := by
+  unfold avgPrice
+  rw [amountOf_exact, premiumOf_exact]
+  simp only [fillSum, fillCost, List.map_cons, List.map_nil, List.sum_cons, List.sum_nil, add_zero]
+  rw [if_neg h]; rfl
+
+/-- **size-weighted average buy price** (exact arithmetic): after a buy the position's average buy price is
+    `(old avg × old bought + Σ price × size) / (old bought + filled)` and amounts grow by the filled amount -/
+theorem C15_buy_position (c : TokenCfg) (s s' : DState) (r : Req) (fills : List Fill) (fee : Rat)
+    (h : buy DCtx.exact c s r = (.ok (.trade fills fee), s')) (hfs : fillSum fills = roundDec c.tradeExp r.amount)
+    (hpos : fillSum fills ≠ 0) :
+    ∃ p', AList.get? s'.positions r.name = some p' ∧
+      match AList.get? s.positions r.name with
+      | none => p'.amount = fillSum fills ∧ p'.buyAmt = fillSum fills ∧ p'.avgBuy = fillCost fills / fillSum fills ∧
+                p'.sellAmt = 0 ∧ p'.name = r.name
+      | some p => p'.amount = p.amount + fillSum fills ∧ p'.buyAmt = p.buyAmt + fillSum fills ∧
+                (p.buyAmt + fillSum fills ≠ 0 →
+                  p'.avgBuy = (p.avgBuy * p.buyAmt + fillCost fills) / (p.buyAmt + fillSum fills)) := by
+  obtain ⟨_, ck, hck, fills', prem, fee', hfills, _, _, hres, _, _, hs'⟩ := buy_ok h
+  simp only [Res.trade.injEq] at hres
+  obtain ⟨rfl, rfl⟩ := hres
+  have hamt := (checkTx_ok hck).2.2.2.1
+  have hca : ck.amount = fillSum fills := by rw [hamt, hfs]
+  have havg : avgPrice DCtx.exact fills = fillCost fills / fillSum fills := by
+    unfold avgPrice; rw [amountOf_exact, premiumOf_exact]; simp [hpos]
+  refine ⟨boughtPosition DCtx.exact (AList.get? s.positions r.name) r ck (avgPrice DCtx.exact fills), ?_, ?_⟩
+  · rw [hs']; exact AList_get_set _ _ _
+  · cases hg : AList.get? s.positions r.name with
+    | none =>
+      simp only [boughtPosition]
+      exact ⟨hca, hca, havg, trivial, trivial⟩
+    | some p =>
+      simp only [boughtPosition, exact_num, NumCtx.exact_add]
+      refine ⟨by rw [hca], by rw [hca], ?_⟩
+      intro hne
+      have hne' : fillSum fills + p.buyAmt ≠ 0 := by rwa [add_comm] at hne
+      rw [havg, hca, Deribit.avgPrice_two _ _ _ _ hne']
+      field_simp
+      ring
+
+/-- **no fill, no change**: an order that raises leaves cash, positions, visible book, wallet and action
+    log exactly as they were (every context) -/
+theorem C15_rejected_order_changes_nothing (cx : DCtx) (c : TokenCfg) (s s' : DState) (r : Req) (e : Err) :
+    (buy cx c s r = (.error e, s') → s' = s) ∧ (sell cx c s r = (.error e, s') → s' = s) :=
+  ⟨buy_err, sell_err⟩
+
+/-- trades are accepted only while `market.is_open` -/
+theorem C15_trades_need_open_market (cx : DCtx) (c : TokenCfg) (s : DState) (r : Req) (h : s.flagOpen = false) :
+    buy cx c s r = (.error (.demeter "market-closed"), s) ∧ sell cx c s r = (.error (.demeter "market-closed"), s) := by
+  constructor <;> simp [buy, sell, h]
+
+
+/-- **fills shrink the visible book for the following orders**: the next operation of the bar runs on the
+    state the previous one left (the book written back by `get_new_order_list`), whatever the outcome -/
+theorem C15_following_order_sees_shrunken_book (cx : DCtx) (c : TokenCfg) (s : DState) (o : Op) (os : List Op) :
+    runOps cx c s (o :: os) = runOps cx c (step cx c s o).2 os := rfl
+
+/-- … and the book an accepted buy leaves is the old book with the asks of that instrument rewritten -/
+theorem C15_buy_book (cx : DCtx) (c : TokenCfg) (s s' : DState) (r : Req) (fills : List Fill) (fee : Rat)
+    (h : buy cx c s r = (.ok (.trade fills fee), s')) :
+    ∃ ins, findInstr s.book r.name = some ins ∧ s'.book = setAsks s.book r.name (newOrderList cx ins.asks fills) := by
+  obtain ⟨_, ck, hck, fills', _, _, _, _, _, hres, _, _, hs'⟩ := buy_ok h
+  simp only [Res.trade.injEq] at hres
+  obtain ⟨rfl, _⟩ := hres
+  exact ⟨ck.ins, (checkTx_ok hck).1, by rw [hs']⟩
+
+/-! ### non-vacuity: a concrete book on which the hypotheses hold and the operations succeed -/
+
+def Deribit.exInstr : Instr :=
+  { name := "ETH-22SEP23-1650-C", stateOpen := true, kind := .call, strike := 1650, expiry := 30000,
+    mark := 287 / 10000, underlying := 165194 / 100, delta := 52071 / 100000, gamma := 342 / 100000,
+    asks := [⟨57 / 2000, 5, false⟩, ⟨29 / 1000, 605, false⟩, ⟨59 / 2000, 197, true⟩],
+    bids := [⟨28 / 1000, 51, false⟩, ⟨55 / 2000, 585, false⟩] }
+
+def Deribit.exState : DState :=
+  { cash := 100, positions := [], book := [Deribit.exInstr], wallet := [("ETH", 5)], allowNeg := false, actions := [],
+    cache := none, flagOpen := true, now := 360, price := 165194 / 100 }
+
+def Deribit.exReq (a : Rat) (p : Option Rat) : Req :=
+  { name := "ETH-22SEP23-1650-C", amount := a, priceTok := p, priceUsd := none, mult := none }
+
+-- 9.5 contracts round (half up) to 10: 5 @ 0.0285 then 5 @ 0.029; fee = min(0.0003·10, 0.125·0.2875) = 0.003
+example : (buy DCtx.exact ethCfg Deribit.exState (Deribit.exReq (19 / 2) none)).1 =
+    .ok (.trade [⟨57 / 2000, 5⟩, ⟨29 / 1000, 5⟩] (3 / 1000)) := by decide +kernel
+example : (buy DCtx.exact ethCfg Deribit.exState (Deribit.exReq (19 / 2) none)).2.cash =
+    100 - (5 * (57 / 2000) + 5 * (29 / 1000) + 3 / 1000) := by decide +kernel
+-- the following order sees 0 / 600 / 197: 601 more contracts take 600 @ 0.029 and 1 @ 0.0295
+example : (step DCtx.exact ethCfg (runOps DCtx.exact ethCfg Deribit.exState [.buy (Deribit.exReq (19 / 2) none)])
+      (.buy (Deribit.exReq 601 none))).1 = .ok (.trade [⟨29 / 1000, 600⟩, ⟨59 / 2000, 1⟩] (1803 / 10000)) := by decide +kernel
+-- a limit order within 0.1 % of a level fills there only; selling what was bought; selling more is refused
+example : (buy DCtx.exact ethCfg Deribit.exState (Deribit.exReq 7 (some (29005 / 1000000)))).1 =
+    .ok (.trade [⟨29 / 1000, 7⟩] (21 / 10000)) := by decide +kernel
+example : (sell DCtx.exact ethCfg (buy DCtx.exact ethCfg Deribit.exState (Deribit.exReq 10 none)).2 (Deribit.exReq 10 none)).1 =
+    .ok (.trade [⟨28 / 1000, 10⟩] (3 / 1000)) := by decide +kernel
+example : (sell DCtx.exact ethCfg (buy DCtx.exact ethCfg Deribit.exState (Deribit.exReq 10 none)).2 (Deribit.exReq 11 none)).1 =
+    .error (.demeter "exceeds-holding") := by decide +kernel
+example : BookNonneg Deribit.exState.book := by
+  intro i hi; simp [Deribit.exState] at hi; subst hi; simp [Deribit.exInstr]
+example : Deribit.exState.onGrid = true := by decide +kernel
 
 end Demeter
